@@ -41,6 +41,21 @@ pub open spec fn spec_cap_of(mask: usize) -> int {
     if mask < 8 { mask as int } else { ((mask as int + 1) / 8) * 7 }
 }
 
+pub open spec fn spec_elt(size: usize) -> int {
+    if size == 0 { 1 } else { size as int }
+}
+/// `b` is what capacity_to_buckets returns for `want` (its Some-postcondition, proved in unit arith)
+pub open spec fn admissible_min(b: usize, want: usize, size: usize) -> bool {
+    &&& spec_is_pow2(b)
+    &&& b >= 4
+    &&& want as int <= spec_cap_of((b - 1) as usize)
+    &&& spec_cap_of((b - 1) as usize) < b as int
+    &&& (b >= 16 || (b == 8 && 8 * spec_elt(size) >= Group::WIDTH as int) || (b == 4 && 4 * spec_elt(size) >= Group::WIDTH as int))
+    &&& (b == 4 || spec_cap_of((b / 2 - 1) as usize) < want as int
+         || (b == 8 && 4 * spec_elt(size) < Group::WIDTH as int)
+         || (b == 16 && 8 * spec_elt(size) < Group::WIDTH as int))
+}
+
 pub struct RawTableInner {
     pub bucket_mask: usize,
     pub growth_left: usize,
@@ -81,6 +96,7 @@ impl RawTableInner {
                 &&& final(self).counts_ok()
                 &&& final(self).items == old(self).items
                 &&& spec_cap_of(final(self).bucket_mask) >= capacity
+                &&& admissible_min((final(self).bucket_mask + 1) as usize, capacity, layout.size)
                 &&& final(self).growth_left as int == spec_cap_of(final(self).bucket_mask) - old(self).items
                 &&& final(self).alloc_id@ != old(self).alloc_id@
             },
@@ -138,4 +154,8 @@ impl<T> RawTable<T> {
     {
         unimplemented!()
     }
+}
+
+pub open spec fn spec_umax(a: usize, b: usize) -> usize {
+    if a > b { a } else { b }
 }
